@@ -5,26 +5,26 @@ sys.path.insert(0, '/verif')
 sys.dont_write_bytecode = True
 props = [json.loads(l) for l in open('/verif/properties.jsonl')]
 TECH = {
- 'C01': 'AST/CFG guard dominance with interpreted vector helpers, effect-pairing automaton on Server.put/remove, who-may-write over resolved classes, typestate product on the placement loop, table agreement of the unit conversion',
- 'C02': 'must-facts dataflow over the CFG with interpreted vector helpers (aggregate monotonicity), must-pass-through for aggregate triggers, attribute read-set vs memo-key completeness (SHAPE-COMPLETE)',
+ 'C01': 'AST/CFG guard dominance with interpreted vector helpers, effect-pairing automaton on Server.put/remove, who-may-write over resolved classes, typestate product on the placement loop, table agreement of the unit conversion, dominance of the before/after snapshots over every placement mutator (fixed point over routines writing .server/.placement_expiry)',
+ 'C02': 'must-facts dataflow over the CFG with interpreted vector helpers (aggregate monotonicity), must-pass-through for aggregate and trait propagation, guard-by-cut on every rejecting exit of the bucket admission and of the pre-walk, attribute read-set vs memo-key completeness (SHAPE-COMPLETE)',
  'C03': 'guard-by-cut dominance for disjunctive guards, who-may-call for the lease bypass, flag-sensitive path search for the re-validation pass, keyword agreement of sibling trait encoders',
  'C04': 'PAIR rules on counter maintenance, normal-form comparison of the limit test, loop-exit analysis of the ancestor walk in the leaf placement',
- 'C05': 'typestate product (CFG x placed/identity automaton) with path witnesses, must-pass-through release pairing, guard normal forms on IdentityGroup',
- 'C06': 'normal form of the sort key, must-facts on the rank decision, sibling agreement of the two queue generators, yield-count automaton per iteration, typestate on the unplaced-rank branch',
- 'C07': 'guard dominance and loop-exit analysis on the victim scan of the placement loop, early-exit enumeration before the restore attempt, record-before-remove ordering',
- 'C08': 'must-facts on the inactive-server pass, Venn-region evaluation of the presence set expressions, guard dominance (not blacklisted / state up), ordering of the cycle passes',
- 'C09': 'Venn-region evaluation of the reconciliation loop domains with reaching definitions, data-flow of record payloads, exact guard sets on the publication loops, who-may-write for published attributes, single-funnel who-may-call',
- 'C10': 'NO-PATH (delete reachable from put) on the CFG of every publication routine, exact guard sets of the removal pass, loop-filter analysis of the restart repair',
- 'C11': 'def-use derived precedence table checked against the call order of load_model, exact guard set of the verbatim branch, must-pass-through on failed restores, call-graph reachability of placement calls',
+ 'C05': 'typestate product (CFG x placed/identity automaton) with path witnesses, must-pass-through release pairing (also before an instance leaves the model), path search for skipped instances of the revocation pass, guard normal forms on IdentityGroup pool operations',
+ 'C06': 'normal form of the sort key, path-sensitive product (rank value x cap test x reservation test) at the construction of the queue entry, sibling agreement of the two queue generators by positions, yield-count automaton per iteration, list-contribution data flow of the merge inputs, typestate on the unplaced-rank branch',
+ 'C07': 'guard dominance and loop-exit analysis on the victim scan of the placement loop, early-exit enumeration before the restore attempt, record-before-remove ordering, lifetime of the restore map',
+ 'C08': 'must-facts on the inactive-server pass (per contribution to the collected list), Venn-region evaluation of the presence set expressions, guard dominance (not blacklisted / state up), ordering of the cycle passes, must-pass-through of the unschedule-mark reset on every un-placement',
+ 'C09': 'Venn-region evaluation of the reconciliation loop domains with reaching definitions, data-flow of record payloads, exact guard sets on the publication loops, snapshot dominance over placement mutators, who-may-write for published attributes, single-funnel who-may-call',
+ 'C10': 'NO-PATH (delete reachable from put) on the CFG of every publication routine, exact guard sets of the removal pass, loop-filter analysis of the restart repair, flag-sensitive must-pass-through of the restored-list report',
+ 'C11': 'def-use derived precedence table checked against the call order of load_model, exact guard set of the verbatim branch, must-pass-through on failed restores, call-graph reachability of placement calls, structural check of the millisecond-to-second conversion on both compared stamps',
  'C12': 'Venn-region evaluation of the cache synchronisation domains, CFG ordering/cleanup analysis of fs.write_safe incl. exceptional edges, who-may-create, constant folding of the temp prefix',
- 'C13': 'key-kind inference (instance vs container) over one directory namespace, guard dominance, exact-condition checks on the to-configure map, ordering of handler gates',
+ 'C13': 'key-kind inference (instance vs container) over one directory namespace, guard dominance, exact-condition checks on the to-configure map, ordering of handler gates, def-use sources and pre-truncation scaling of the generation id',
  'C14': 'sibling cross-check of three managers: exclusive-create primitive, owner-equality guard normal form on every unlink, exception-handler dominance for garbage collection, data-flow of allocated addresses',
  'C15': 'writer/reader table agreement: format-template fields vs regex AST (re._parser) groups and separator alphabets, folded constants (62**13 >= 2**77), slots/constructor/enum agreement of event classes, LDAP schema table checks',
- 'C16': 'symbolic descriptor extraction (resource, constant, payload terms, loop domain, condition) from start and finish with one level of inlining and argument binding; coverage and implication check; folded port constants',
+ 'C16': 'symbolic descriptor extraction (resource, constant, payload terms, loop domain, condition) from start and finish with inlining, literal-loop unrolling and argument binding; coverage and implication check; release-is-last ordering; loop-exit analysis of unlink_all; folded port constants',
  'C17': 'guard dominance on owner-session equality, branch write-freedom, who-may-write inside the service class, must-pass-through recording after successful creates, equality (not prefix) guards on unregister',
  'C18': 'dominance of the snapshot create over deletes, must-facts on selection guards (linear normal forms), slice normal form of history pruning, SQL column agreement',
  'C19': 'table agreement of (dimension, parser, source key) triples across three routines, dominance of the capacity check over admin writes, JSON verb-schema required keys vs subscripted keys, loop-exit analysis of the trait loop',
- 'C20': 'definition normal forms (min/floor, linear slices), guard dominance, folded constants of the token bucket, Venn-region evaluation of the monitor watch, exception-handler table',
+ 'C20': 'definitions compared as resolved expressions (min/floor, linear slices), guard dominance, folded constants of the token bucket, Venn-region evaluation and must-reach of the monitor watch passes, exception-handler table',
 }
 NOT_APPLICABLE = {}
 checks = []
